@@ -88,6 +88,18 @@ class CallGraph:
                                     continue
                                 if " as std::default::Default>::" in m and not ("default" in low or "mem::take" in nm):
                                     continue
+                                if " as std::iter::Extend<" in m and not ("extend" in low or "unzip" in low or "partition" in low):
+                                    continue
+                                if " as std::iter::IntoIterator>::" in m and not ("iter" in low or "extend" in low or "collect" in low or "zip" in low or "chain" in low or "flat" in low):
+                                    continue
+                                if " as std::iter::FromIterator<" in m and not ("collect" in low or "from_iter" in low or "unzip" in low or "partition" in low):
+                                    continue
+                                if (" as std::convert::TryFrom<" in m or " as std::convert::TryInto<" in m) and not ("try_from" in low or "try_into" in low):
+                                    continue
+                                if (" as std::ops::Index<" in m or " as std::ops::IndexMut<" in m) and "index" not in low:
+                                    continue
+                                if (" as std::convert::AsRef<" in m or " as std::borrow::Borrow<" in m) and not ("as_ref" in low or "borrow" in low):
+                                    continue
                                 # formatting impls are only reached through the fmt machinery of the matching trait
                                 fm = _FMT_RE.search(m)
                                 if fm:
